@@ -333,7 +333,12 @@ func (c32NopTrig) Fire(string, []trigger.Record) {}
 
 type c32BarrierTrig struct{ ch chan struct{} }
 
-func (t c32BarrierTrig) Fire(string, []trigger.Record) { t.ch <- struct{}{} }
+func (t c32BarrierTrig) Fire(string, []trigger.Record) {
+	select { // never block a fire goroutine: a misbehaving dispatcher may fire the barrier more than once
+	case t.ch <- struct{}{}:
+	default:
+	}
+}
 
 type c32Pool struct {
 	inst    *tginst.Inst
@@ -346,6 +351,7 @@ type c32Pool struct {
 }
 
 var c32P *c32Pool
+var c32Timeouts int
 
 func c32GetPool() (*c32Pool, error) {
 	if c32P != nil {
@@ -418,6 +424,10 @@ func c32Exec(in *c32In, obs *c32Obs) error {
 	if len(in.Trigs) > c32Slots {
 		return fmt.Errorf("at most %d triggers per case", c32Slots)
 	}
+	if c32Timeouts >= 2 { // the dispatcher does not quiesce any more: do not spend 10 s on every remaining case
+		obs.Code = 3
+		return nil
+	}
 	p, err := c32GetPool()
 	if err != nil {
 		return err
@@ -486,6 +496,9 @@ func c32Exec(in *c32In, obs *c32Obs) error {
 	}
 	// ---- barrier: flush what is still queued, then one more write whose trigger tells us the dispatcher is done
 	inst.WAL.RequestFlush()
+	for len(p.barrier) > 0 { // stale signals
+		<-p.barrier
+	}
 	p.nbar++
 	bcs := io.NewColumnSeries()
 	bcs.AddColumn("Epoch", []int64{time.Date(2020, 1, 1, 0, 0, 0, 0, time.UTC).Unix() + 86400*(p.nbar%360)})
@@ -496,9 +509,10 @@ func c32Exec(in *c32In, obs *c32Obs) error {
 	doCSM(bcsm, false)
 	select {
 	case <-p.barrier:
-	case <-time.After(30 * time.Second):
+	case <-time.After(10 * time.Second):
 		obs.Code = 3
 		c32P = nil // give up on this instance
+		c32Timeouts++
 		return nil
 	}
 	inst.TPD.VerifC32WaitTriggers()
@@ -599,7 +613,7 @@ func c32Run(raw json.RawMessage) (res Result, err error) {
 		}
 	}
 	if obs.Code != 0 {
-		fail("run ended with code %d (2 = panic, 3 = no quiescence within 60 s)", obs.Code)
+		fail("run ended with code %d (2 = panic, 3 = the barrier write did not reach its trigger within 10 s)", obs.Code)
 	}
 	if len(obs.WErrs) > 0 {
 		fail("WriteCSM returned an error: %s", obs.WErrs[0])
